@@ -391,6 +391,9 @@ func checkConv(p *Prog, r *Report, pkg, prop string) {
 	}
 	ruleChangeStateAgreement(p, m, r, pkg)
 	ruleMergeCompleteness(p, r, "R-FC", map[string]bool{pkg: true})
+	r.rule("R-G", "Decision sites of the planner that the property's mechanisms name (unique-name generation; for Linux the route delete/replace decisions) keep exactly their audited controlling conditions (tables/guards.tsv).")
+	ruleGuardTable(p, r, "R-G", prop)
+	ruleCommandsOnlyGrow(p, r, pkg)
 	if pkg == "panos" {
 		rulePanosEscaped(p, r)
 		r.rule("R08.e", "PAN-OS commands are well-formed URLs (see C08).")
@@ -811,7 +814,23 @@ func ruleMergeOrder(p *Prog, r *Report) {
 				}
 			}
 		}
-		r.add("R18.6", "linux-insert|(*linux.config).MergeSpoc", p.pos(fn.Pos()), "raw rules are inserted (index 0, or before the trailing DROP rules when marked append)", okIns && okFlag && okDrop,
+		// backward walk: the index is decremented under the DROP test
+		okBack := false
+		for _, b := range fn.Blocks {
+			for _, in := range b.Instrs {
+				if bo, ok := in.(*ssa.BinOp); ok && bo.Op == token.SUB && isIntType(bo.Type()) {
+					if k, ok := constInt(bo.Y); ok && k == 1 {
+						for _, g := range guardSet(bo) {
+							if strings.Contains(g, `"DROP" ==`) || strings.Contains(g, `== "DROP"`) {
+								okBack = true
+							}
+						}
+					}
+				}
+			}
+		}
+		okDrop = okDrop && okBack
+		r.add("R18.6", "linux-insert|(*linux.config).MergeSpoc", p.pos(fn.Pos()), "raw rules are inserted (index 0, or before the trailing DROP rules when marked append: backward walk while the previous rule is DROP)", okIns && okFlag && okDrop,
 			"the chain merge lost the prepend / append-before-DROP placement")
 	} else {
 		r.fail("R18.6", "anchor|linux MergeSpoc", "", "not found", "")
@@ -898,4 +917,89 @@ func nameOfVar(v ssa.Value) string {
 		break
 	}
 	return ""
+}
+
+// ruleCommandsOnlyGrow: R-K.  In the planner functions of a package, lists of
+// emitted commands are only appended to: no re-slicing of a []string /
+// []change accumulator to a shorter length.
+func ruleCommandsOnlyGrow(p *Prog, r *Report, pkg string) {
+	r.rule("R-K", "Emitted commands are kept: in the planner functions (reachable from diffConfig) no list of commands ([]string, []change) is re-sliced to a shorter length (x[:n]); a command once appended is part of the result. (Discarding already collected commands while the state marks set along with them stay is a convergence defect that no expected-output test of single edits sees.)")
+	root := p.Fn(pkg + ".diffConfig")
+	if root == nil {
+		r.fail("R-K", "anchor|"+pkg+".diffConfig", "", "not found", "")
+		return
+	}
+	n := 0
+	// accumulators: local variables / cells that are the first argument of an append of commands
+	isAccRoot := func(v ssa.Value) bool {
+		switch x := v.(type) {
+		case *ssa.Phi, *ssa.Alloc, *ssa.FreeVar:
+			return true
+		case *ssa.Call:
+			if bi, ok := x.Common().Value.(*ssa.Builtin); ok && bi.Name() == "append" {
+				return true
+			}
+		case *ssa.UnOp:
+			switch x.X.(type) {
+			case *ssa.Alloc, *ssa.FreeVar:
+				return true
+			}
+		}
+		return false
+	}
+	var fns []*ssa.Function
+	for _, fn := range funcTree(p, root) {
+		if pkgOfFunc(fn) == pkg {
+			fns = append(fns, fn)
+		}
+	}
+	accCells := map[ssa.Value]bool{}
+	for _, fn := range fns {
+		for _, cs := range callsOf(fn) {
+			bi, ok := cs.In.Common().Value.(*ssa.Builtin)
+			if !ok || bi.Name() != "append" || cs.In.Value() == nil || !isCmdList(cs.In.Value().Type()) {
+				continue
+			}
+			a0 := cs.In.Common().Args[0]
+			if !isAccRoot(a0) {
+				continue
+			}
+			n++
+			accCells[a0] = true
+			if u, ok := a0.(*ssa.UnOp); ok {
+				accCells[u.X] = true
+			}
+		}
+	}
+	for _, fn := range fns {
+		for _, b := range fn.Blocks {
+			for _, in := range b.Instrs {
+				x, ok := in.(*ssa.Slice)
+				if !ok || x.High == nil || !isCmdList(x.X.Type()) {
+					continue
+				}
+				hit := accCells[x.X]
+				if u, ok := x.X.(*ssa.UnOp); ok && accCells[u.X] {
+					hit = true
+				}
+				if !hit {
+					continue
+				}
+				r.fail("R-K", "truncate|"+fnDisplay(fn), p.ipos(x), "the command accumulator is re-sliced ("+descValue(x.X, 0)+"[:...]) in "+fnDisplay(fn),
+					"commands that were already collected can be dropped from the result")
+			}
+		}
+	}
+	r.add("R-K", "commands-only-appended|"+pkg, p.pos(root.Pos()), fmt.Sprintf("%d appends to command lists in the %s planner, no truncation", n, pkg), n >= 3, "no command list found: anchor lost")
+}
+
+func isCmdList(t types.Type) bool {
+	sl, ok := t.Underlying().(*types.Slice)
+	if !ok {
+		return false
+	}
+	if isStringType(sl.Elem()) {
+		return true
+	}
+	return strings.HasSuffix(typeShort(sl.Elem()), ".change")
 }
